@@ -1416,6 +1416,12 @@ checksum_init(struct archive_read *a, int a_sum_alg, int e_sum_alg)
 	struct xar *xar;
 
 	xar = (struct xar *)(a->format->data);
+	/*
+	 * The previous entry's contexts are still live if its data was not
+	 * read to the end (checksum_final() never ran); release them before
+	 * they are overwritten.
+	 */
+	checksum_cleanup(a);
 	_checksum_init(&(xar->a_sumwrk), a_sum_alg);
 	_checksum_init(&(xar->e_sumwrk), e_sum_alg);
 }
